@@ -38,6 +38,7 @@ func checkC16(c *Ctx) {
 	c.Rule("C16.R1", "for each supported geom type the shape type NewEncoder selects from the field's type name, the concrete go-shp shape geom2Shp builds and the geom type shp2Geom rebuilds from that shape are consistent (Point↔POINT↔*shp.Point↔Point, (Multi)LineString↔POLYLINE↔*shp.PolyLine↔MultiLineString, Polygon/*Bounds↔POLYGON↔*shp.Polygon↔Polygon, MultiPoint↔MULTIPOINT↔*shp.MultiPoint↔MultiPoint)")
 	c.Rule("C16.R2", "every geometry copy loop in both directions is an identity index map over the full part range (dst[j-start] = src[j] for start ≤ j < end, whatever the loop direction); part i runs from parts[i] to parts[i+1], the last one to len(points)")
 	c.Rule("C16.R3", "a ring is closed by appending its first vertex exactly when it is non-empty and first ≠ last")
+	c.Rule("C16.R6", "the attribute-row counter advances with the shape cursor: in each decoding method, every return reached with a record and no recorded error has incremented the row counter exactly once")
 	c.Rule("C16.R5", "attribute columns are matched case-insensitively and by tag or name: the decoder's column index is keyed by lower-cased column names, every lookup key is lower-cased, and DecodeRow looks each struct field up once by its tag and once, independently of the tag, by its Go name, handing the column it found to the attribute setter")
 	c.Rule("C16.R4", "encoder kind→field table and decoder kind→parser table cover the same kinds {int, float64, string}; field widths satisfy the documented guarantees (string ≥ 50, float precision ≥ 10, float width ≥ sign+17 digits+point+precision, int width ≥ 10)")
 	p := c.P.Pkg("encoding/shp")
@@ -51,6 +52,8 @@ func checkC16(c *Ctx) {
 	a.closing()
 	a.attributes()
 	a.matching()
+	a.rowCursor()
+	c.Floor("C16.R6", 2)
 	c.Floor("C16.R5", 4)
 	c.Floor("C16.R1", 6)
 	c.Floor("C16.R2", 8)
@@ -1040,5 +1043,149 @@ func (a *c16) matching() {
 		}
 		_ = nStore
 		_ = nLookup
+	}
+}
+
+// ---------------------------------------------------------------- R6
+
+// rowCursor: the attribute-row counter advances with the shape cursor.  In every Decoder
+// method that advances the shape cursor (a call of the embedded reader's Next), each
+// return reached with "there was a record" and no error recorded has passed exactly one
+// increment of the row counter; otherwise the attributes of later records are read from an
+// earlier row (same order / equal attributes clause).
+func (a *c16) rowCursor() {
+	c := a.c
+	decT := c.P.NamedType("encoding/shp", "Decoder")
+	if decT == nil {
+		return
+	}
+	// the int field incremented by the decoding methods
+	for _, fn := range c.P.RepoFuncs() {
+		if c.P.DeclPkg(fn) != a.p {
+			continue
+		}
+		sig := fn.Type().(*types.Signature)
+		if sig.Recv() == nil || named(sig.Recv().Type()) != decT {
+			continue
+		}
+		fd := c.P.Decl(fn)
+		recv := receiverVar(a.info, fd)
+		callsNext := false
+		var moreVars = map[types.Object]bool{}
+		ast.Inspect(fd.Body, func(n ast.Node) bool {
+			as, ok := n.(*ast.AssignStmt)
+			if !ok || len(as.Rhs) != 1 {
+				return true
+			}
+			if call, ok := unparen(as.Rhs[0]).(*ast.CallExpr); ok {
+				if f := callee(a.info, call); f != nil && f.Name() == "Next" && f.Pkg() != nil && f.Pkg().Path() == goshpPath {
+					callsNext = true
+					if o := objOf(a.info, as.Lhs[0]); o != nil {
+						moreVars[o] = true
+					}
+				}
+			}
+			return true
+		})
+		if !callsNext {
+			continue
+		}
+		name := c.P.FuncName(fn) + "#row-cursor"
+		isErrExpr := func(e ast.Expr) bool {
+			t := a.info.TypeOf(e)
+			return t != nil && types.Identical(t, types.Universe.Lookup("error").Type())
+		}
+		var exempting func(e ast.Expr, truth bool) bool
+		exempting = func(e ast.Expr, truth bool) bool {
+			e = unparen(e)
+			switch x := e.(type) {
+			case *ast.UnaryExpr:
+				if x.Op == token.NOT {
+					return exempting(x.X, !truth)
+				}
+			case *ast.BinaryExpr:
+				switch x.Op {
+				case token.LOR:
+					if truth {
+						return exempting(x.X, true) && exempting(x.Y, true)
+					}
+					return exempting(x.X, false) || exempting(x.Y, false)
+				case token.LAND:
+					if truth {
+						return exempting(x.X, true) || exempting(x.Y, true)
+					}
+					return exempting(x.X, false) && exempting(x.Y, false)
+				case token.NEQ, token.EQL:
+					for _, pr := range [][2]ast.Expr{{x.X, x.Y}, {x.Y, x.X}} {
+						if isErrExpr(pr[0]) && isNilConst(a.info, pr[1]) {
+							return (x.Op == token.NEQ) == truth
+						}
+					}
+				}
+			case *ast.Ident:
+				if o := objOf(a.info, x); o != nil && moreVars[o] {
+					return !truth
+				}
+			}
+			return false
+		}
+		var bad ast.Node
+		var why string
+		nRet := 0
+		cl := &FactsClient{}
+		cl.OnBranch = func(cond ast.Expr, truth bool, s Facts) Facts {
+			if exempting(cond, truth) {
+				s["exempt"] = true
+			}
+			return s
+		}
+		cl.OnStmt = func(n ast.Node, s Facts) Facts {
+			switch x := n.(type) {
+			case *ast.IncDecStmt:
+				if sel, ok := unparen(x.X).(*ast.SelectorExpr); ok && objOf(a.info, sel.X) == recv && x.Tok == token.INC {
+					if s["inc"] {
+						s["inc2"] = true
+					}
+					s["inc"] = true
+				}
+			case *ast.AssignStmt:
+				for i, l := range x.Lhs {
+					if sel, ok := unparen(l).(*ast.SelectorExpr); ok && objOf(a.info, sel.X) == recv && isErrExpr(l) {
+						if i < len(x.Rhs) && !isNilConst(a.info, x.Rhs[i]) {
+							s["exempt"] = true
+						}
+					}
+				}
+			}
+			return s
+		}
+		cl.OnReturn = func(r *ast.ReturnStmt, s Facts) {
+			nRet++
+			if bad != nil {
+				return
+			}
+			var at ast.Node = fd
+			if r != nil {
+				at = r
+			}
+			if s["exempt"] {
+				return
+			}
+			if !s["inc"] {
+				bad, why = at, "returns after a record was fetched (no error recorded, more records reported) without advancing the attribute-row counter: every later record is decoded with the attributes of an earlier row"
+			} else if s["inc2"] {
+				bad, why = at, "advances the attribute-row counter twice for one record"
+			}
+		}
+		fl := &Flow[Facts]{C: cl, Info: a.info}
+		fl.Run(fd.Body, Facts{})
+		switch {
+		case len(fl.Unsupported) > 0:
+			c.Unk("C16.R6", name, fl.Unsupported[0].Pos(), "unsupported control flow")
+		case bad != nil:
+			c.Bad("C16.R6", name, bad.Pos(), "`%s` %s", strings.SplitN(src(bad), "\n", 2)[0], why)
+		default:
+			c.OK("C16.R6", name, fd.Pos(), "%d return paths: each non-error path with a record increments the row counter exactly once", nRet)
+		}
 	}
 }
